@@ -22,12 +22,18 @@ def tifa_analysis(code=None, report=MAIN_REPORT):
     """
     if code is None:
         code = report.submission.main_code
-    if code in report[TIFA_TOOL_NAME]['analyses']:
+    # The same text in another section of the file is another analysis:
+    # its issues are on other lines
+    line_offset = 0
+    if report.submission:
+        line_offset = report.submission.line_offsets.get(report.submission.main_file, 0)
+    analysis_key = (code, line_offset)
+    if analysis_key in report[TIFA_TOOL_NAME]['analyses']:
         # Also the latest analysis that was asked for (see get_issues)
-        report[TIFA_TOOL_NAME]['latest'] = report[TIFA_TOOL_NAME]['analyses'][code]
-        return report[TIFA_TOOL_NAME]['analyses'][code]
+        report[TIFA_TOOL_NAME]['latest'] = report[TIFA_TOOL_NAME]['analyses'][analysis_key]
+        return report[TIFA_TOOL_NAME]['analyses'][analysis_key]
     result = report[TIFA_TOOL_NAME]['instance'].process_code(code)
-    report[TIFA_TOOL_NAME]['analyses'][code] = result
+    report[TIFA_TOOL_NAME]['analyses'][analysis_key] = result
     report[TIFA_TOOL_NAME]['latest'] = result
     return result
 
